@@ -362,7 +362,42 @@ def t_null(rng, layout):
     return rec, 'accept', [], None
 
 
+DECOYS = {
+    # signatures of OTHER formats planted in bytes the image's own format
+    # does not look at: (offset, bytes, bytes needed in the stream)
+    'gpt': (510, b'\x55\xaa', 512),
+    'iso': (32769, b'CD001', 34816),
+    'vdi': (0x40, b'\x7f\x10\xda\xbe', 512),
+}
+# which decoys a format tolerates (the bytes lie outside what it parses)
+DECOY_OK = {'qed': ('gpt', 'iso', 'vdi'), 'qcow2': ('gpt', 'iso'),
+            'luks': ('gpt', 'iso'), 'vmdk': ('iso',)}
+
+
 def gen_traited(rng, layout=None):
+    rec, label, reasons, hint = _gen_traited(rng, layout)
+    lay = rec['layout']
+    if label == 'reject' and lay in DECOY_OK and rng.random() < 0.12:
+        # an unsafe image that ALSO carries other formats' signatures: going
+        # through detection it must still never be accepted (refusing it as
+        # ambiguous is fine)
+        names = [d for d in DECOY_OK[lay] if rng.random() < 0.7] or \
+            [DECOY_OK[lay][0]]
+        need = max(DECOYS[d][2] for d in names)
+        p = rec['p']
+        if lay == 'vmdk':
+            p['data_after'] = max(p.get('data_after', 0), need)
+        else:
+            p['total'] = max(p.get('total', 0), need + 512)
+        rec['mut'] = sorted((rec.get('mut') or []) +
+                            [[DECOYS[d][0], DECOYS[d][1].hex()]
+                             for d in names])
+        reasons = list(reasons) + ['with_decoy_signatures']
+        hint = None
+    return rec, label, reasons, hint
+
+
+def _gen_traited(rng, layout=None):
     layout = layout or weighted(rng, [
         ('qcow2', 7), ('vmdk', 8), ('vmdk_text', 3), ('qed', 1), ('luks', 2),
         ('gpt', 5), ('vhd', 1), ('vhdx', 1), ('vdi', 1), ('iso', 1),
